@@ -11,7 +11,7 @@ EXPLANATION = (
     "the eight From impls between ScoreState and the mode states are field permutations that are mutually inverse "
     "(R4); state(), generate_state()'s write-back and the single-value setters agree on one field map (R5); every "
     "subtraction in generate_state, read as a linear form in (object count, clamped misses) with hit-result fields as opaque "
-    "counts, takes the misses off the object count at most once (R6). R7: Performance::state hands the ScoreState over whole or reads every one of its fields (helpers inlined): a count read nowhere is dropped for every mode. The rest of the "
+    "counts, takes the misses off the object count at most once (R6). R8 (shared with C14-R8): in a mode entry no read of the converted map is followed by one of the entry's in-place rewrites (HoldOff, Invert, Random) — an object count taken before Invert is not the count the calculation runs on. R7: Performance::state hands the ScoreState over whole or reads every one of its fields (helpers inlined): a count read nowhere is dropped for every mode. The rest of the "
     "remainder arithmetic (adds up, keeps what fits, idempotence) is u32 arithmetic over runtime counts: NOT decided.")
 
 
